@@ -56,6 +56,7 @@ type Prog struct {
 	fieldByOld      map[string]*types.Var
 	localAliasByPos map[token.Pos]string
 	wrapCache       map[*Func][]ast.Expr
+	wrapEnv         map[*Func]*Env
 	baselineKnown   map[string]bool   // unexported function names of the tree the rules were written for
 	sharedHelpers   map[*Func][]*Func // caller -> private helpers with several call sites it calls
 	predCache       map[*Func]*predSummary
